@@ -355,8 +355,10 @@ def Sess.createURR (s : Sess) (ie : RuleIE) (c : Ctx) : Sess × Ctx :=
   match ie.id with
   | none => (s, c)
   | some id =>
+    -- PDRs created earlier may already name this URR: the new entry starts with their number as reference count
     let info : URRInfo := { durat := (ie.meth.getD (false, false)).1, volum := (ie.meth.getD (false, false)).2,
-                            mnop := ie.mnop.getD false }
+                            mnop := ie.mnop.getD false,
+                            refPdrNum := (s.pdrs.filter fun p => p.2.contains id).length }
     let s' := { s with urrs := alSet s.urrs id info }
     let (c', _) := c.call { seid := s.localID, op := .create, kind := .urr, id := id }
     (s', c')
